@@ -97,7 +97,7 @@ fn dbg(input: &str, out: &str, hyeong: &str, work: &str, jobs: usize) {
         std::fs::write(&file, program_text(&case["prog"]).as_bytes()).unwrap();
         let mut cmd = Command::new(&hyeong);
         cmd.args(["debug", "--color", "never", &file]);
-        let (o, e, code, timed_out) = run_proc(&mut cmd, script_text(&case["script"]).as_bytes(), Duration::from_millis(if std::env::var("HV_SLOW").is_ok() { 40000 } else { 4000 }), 4 << 20);
+        let (o, e, code, timed_out) = run_proc(&mut cmd, script_text(&case["script"]).as_bytes(), Duration::from_millis(if std::env::var("HV_SLOW").is_ok() { 15000 } else { 1500 }), 4 << 20);
         let _ = std::fs::remove_dir_all(&dir);
         let so = String::from_utf8_lossy(&o).to_string();
         let se = String::from_utf8_lossy(&e).to_string();
@@ -129,7 +129,7 @@ fn repl(input: &str, out: &str, hyeong: &str, work: &str, jobs: usize) {
         }
         let mut cmd = Command::new(&hyeong);
         cmd.args(["--color", "never"]).current_dir(&work);
-        let (o, e, code, timed_out) = run_proc(&mut cmd, text.as_bytes(), Duration::from_millis(if std::env::var("HV_SLOW").is_ok() { 40000 } else { 2500 }), 4 << 20);
+        let (o, e, code, timed_out) = run_proc(&mut cmd, text.as_bytes(), Duration::from_millis(if std::env::var("HV_SLOW").is_ok() { 15000 } else { 2500 }), 4 << 20);
         let so = String::from_utf8_lossy(&o).to_string();
         let se = String::from_utf8_lossy(&e).to_string();
         // one segment per prompt
